@@ -89,6 +89,15 @@ def ref_stamp(d: dt.datetime) -> bytes:
     return b'%04d%02d%02dT%02d%02d%02d' % (d.year, d.month, d.day, d.hour, d.minute, d.second)
 
 
+def ref_locator(loc):
+    """component wires of a key locator given as a URI of generic components, or as a list of text / wire elements (text elements
+    are UTF-8)"""
+    from urllib.parse import unquote_to_bytes
+    if isinstance(loc, str):
+        return [ts.tlv(8, unquote_to_bytes(p)) for p in loc.strip('/').split('/')]
+    return [ts.tlv(8, x.encode('utf-8')) if isinstance(x, str) else bytes(x) for x in loc]
+
+
 def check_cert(wire, key_name, issuer_comp, pub, issuer_kind, loc, nb: dt.datetime, na: dt.datetime, version_ms, tag):
     viol = []
 
@@ -120,7 +129,7 @@ def check_cert(wire, key_name, issuer_comp, pub, issuer_kind, loc, nb: dt.dateti
         return viol
     if si['type'] != SIGTYPE[issuer_kind]:
         bad('signature-type', f"{si['type']}")
-    want_loc = [bytes(c) for c in enc.Name.from_str(loc)]
+    want_loc = ref_locator(loc)
     if si['key_name'] != want_loc:
         bad('key-locator', f"KeyLocator {si['key_name']} != the issuing signer's {want_loc}")
     if si['not_before'] != ref_stamp(nb) or si['not_after'] != ref_stamp(na):
@@ -152,6 +161,13 @@ def derive_cases(tier):
     # B: all instants x durations (x aware/naive) for two issuers
     for st, du, aware, iss in itertools.product(STARTS, DURATIONS, (False, True), ('ed', 'ecdsa')):
         yield {'f': 'derive', 'kn': 'ident1-id0', 'iid': 'str', 'subj': 'ec256_1', 'iss': iss, 'start': st, 'dur': du, 'aware': aware, 'it': 1}
+    # B2: the same instants in a process whose local time zone is not UTC (naive datetimes are taken as they are, aware ones
+    #     are UTC): the local zone must not leak into the validity period
+    for tz in ('EST+5', 'IST-5:30'):
+        for st, aware in itertools.product(STARTS, (False, True)):
+            yield {'f': 'derive', 'kn': 'ident1-id0', 'iid': 'str', 'subj': 'ec256_1', 'iss': 'ed', 'start': st, 'dur': 86400, 'aware': aware, 'it': 1, 'tz': tz}
+        for f in ('self', 'req'):
+            yield {'f': f, 'kn': 'ident1-id1', 'subj': 'ec256_1', 'iss': 'ed', 'now': '2024-02-29T12:00:00+00:00', 'it': 0, 'tz': tz}
     # C: size sweep: a padded identity component moves the certificate across the 253 / 65536 byte boundaries, for every
     #    DER length of the ECDSA signature (many nonces) and for short subject keys
     nonces = 8 if tier == 'quick' else 24
@@ -163,6 +179,11 @@ def derive_cases(tier):
     for iss in ('ecdsa521', 'ecdsa384', 'ecdsa224'):
         for it in range(nonces * 3):
             yield {'f': 'derive', 'kn': 'ident1-id0', 'iid': 'str', 'subj': 'ec256_1', 'iss': iss, 'start': STARTS[6], 'dur': 3600, 'it': it}
+    # T: key name and key locator given with text elements outside ASCII (UTF-8 in the name)
+    for iss in ('ed', 'ecdsa', 'rsa'):
+        yield {'f': 'derive', 'kn': 'text', 'iid': 'str', 'subj': 'ec256_1', 'iss': iss, 'start': STARTS[3], 'dur': 3600, 'it': 0, 'text': True}
+    for f in ('self', 'req'):
+        yield {'f': f, 'kn': 'text', 'subj': 'ec256_1', 'iss': 'ed', 'now': '2024-02-29T12:00:00+00:00', 'it': 0, 'text': True}
     # R: one signer object issuing two certificates, its (public) key_locator_name attribute reassigned in between
     for iss in ISSUERS:
         for subj in ('ec256_1', 'rsa2048_1'):
@@ -176,13 +197,38 @@ def derive_cases(tier):
 
 
 def run_case(case):
+    if case.get('tz'):
+        import os
+        import time as _t
+        old_tz = os.environ.get('TZ')
+        os.environ['TZ'] = case['tz']
+        _t.tzset()
+        try:
+            return run_case_inner(case)
+        finally:
+            if old_tz is None:
+                os.environ.pop('TZ', None)
+            else:
+                os.environ['TZ'] = old_tz
+            _t.tzset()
+    return run_case_inner(case)
+
+
+def run_case_inner(case):
     names = dict(key_names())
+    kn_given = None
     if case['kn'] == 'pad':
         kn = [ts.tlv(8, b'p' * case['pad']), KEY_COMP, ts.tlv(8, b'\x01')]
+    elif case['kn'] == 'text':
+        kn_given = ['caf\u00e9', 'a b', '\u65e5\u672c', KEY_COMP, ts.tlv(8, b'\x01')]
+        kn = [ts.tlv(8, x.encode('utf-8')) if isinstance(x, str) else x for x in kn_given]
     else:
         kn = names[case['kn']]
     pub = pub_der(case['subj'])
     signer, loc = issuer_signer(case['iss'])
+    if case.get('text'):
+        loc = ['issu\u00e9r', 'k \u00e9', 'KEY', ts.tlv(8, b'\x01')]
+        signer.key_locator_name = list(loc)
     tag = case['f']
     version_ms = 1_700_000_123_456
     if case['f'] != 'derive':
@@ -209,7 +255,7 @@ def run_case(case):
                 if case.get('aware'):
                     start = start.replace(tzinfo=dt.timezone.utc)
                 try:
-                    name, wire = sv2.derive_cert(list(kn), iid if isinstance(iid, str) else bytearray(iid), pub, signer, start, case['dur'])
+                    name, wire = sv2.derive_cert(list(kn_given or kn), iid if isinstance(iid, str) else bytearray(iid), pub, signer, start, case['dur'])
                 except Exception as e:  # noqa
                     return [(f'C16|derive|raises:{type(e).__name__}@{tb_where(e)}', f'{e!r}; case {case}')], None
                 nb, na = start, start + dt.timedelta(seconds=case['dur'])
@@ -217,12 +263,12 @@ def run_case(case):
                 with fixed_now(case['now']) as now:
                     try:
                         if case['f'] == 'self':
-                            name, wire = sv2.self_sign(list(kn), pub, signer)
+                            name, wire = sv2.self_sign(list(kn_given or kn), pub, signer)
                             issuer_comp = ts.tlv(8, b'self')
                             nb = dt.datetime(1970, 1, 1)
                             na = now.replace(year=now.year + 20)
                         else:
-                            name, wire = sv2.sign_req(list(kn), pub, signer)
+                            name, wire = sv2.sign_req(list(kn_given or kn), pub, signer)
                             issuer_comp = ts.tlv(8, b'cert-request')
                             nb, na = now, now + dt.timedelta(days=10)
                     except Exception as e:  # noqa
